@@ -366,6 +366,23 @@ func isRealHalf(w *world.World, a *world.Alloc) bool {
 func (e *Engine) checkC03(st *Step) {
 	w := st.Post
 	e.obs("c03.checks", 1)
+	// observation only: node removals that hit a cross-node swap in flight (which half lived on the removed node)
+	if st.Op != nil && st.Op.Kind == OpDecom && st.Pre != nil {
+		if n := st.Pre.Nodes[st.Op.Node]; n != nil {
+			for _, al := range n.Allocs {
+				if isRealHalf(st.Pre, al) {
+					e.obs("c03.decom_real_node_swap_in_flight", 1)
+				}
+				if al.Placeholder && al.Released && al.ReleaseKey != "" {
+					if app := st.Pre.Apps[al.App]; app != nil {
+						if ask := app.Asks[al.ReleaseKey]; ask != nil && ask.Allocated && ask.Node != "" && ask.Node != st.Op.Node {
+							e.obs("c03.decom_placeholder_node_swap_in_flight", 1)
+						}
+					}
+				}
+			}
+		}
+	}
 	neg := func(what string, r res.R) {
 		if r.HasNegative() {
 			e.violate("C03", "negative", "/"+strings.SplitN(what, " ", 2)[0], fmt.Sprintf("%s is negative: %s", what, r))
